@@ -613,11 +613,17 @@ func someGuard(f *ssa.Function, b *ssa.BasicBlock, idx, x ssa.Value) string {
 	}
 	grow(idx, 0)
 	for v := range fam {
-		switch v.(type) {
+		switch t := v.(type) {
 		case *ssa.Parameter, *ssa.FreeVar:
 			return "it is (computed from) a parameter, which the callers may have checked"
 		case *ssa.Phi:
 			return "it is a loop-carried counter"
+		case *ssa.Call:
+			// len(x) - k on the same operand: in bounds iff the operand has at least k elements, an invariant of the structure
+			// (a stack that is never empty) that is established where it is built, not here
+			if bi, ok := t.Call.Value.(*ssa.Builtin); ok && bi.Name() == "len" && len(t.Call.Args) == 1 && x != nil && sameValue(t.Call.Args[0], x) {
+				return "it is computed from the length of the operand itself"
+			}
 		}
 	}
 	isLen := func(v ssa.Value) bool {
@@ -727,6 +733,37 @@ func checkSliceSite(c *Ctx, f *ssa.Function, x *ssa.Slice, covered, lexMin map[t
 	}
 	// slicing a compiler-made array fully (varargs) is x[:] and was skipped; remaining: s[a:b]
 	key := fmt.Sprintf("slice %s in %s", describeSlice(f, x), shortFn(f))
+	// a fresh array (make with constant length and capacity compiles to one) cut with constant bounds inside it
+	if al, ok := x.X.(*ssa.Alloc); ok {
+		if arr, ok := al.Type().Underlying().(*types.Pointer).Elem().Underlying().(*types.Array); ok {
+			hiOK := x.High == nil
+			if hk, ok := x.High.(*ssa.Const); ok && hk.Value != nil && hk.Int64() >= 0 && hk.Int64() <= arr.Len() {
+				hiOK = true
+			}
+			loOK := x.Low == nil
+			if lk, ok := x.Low.(*ssa.Const); ok && lk.Value != nil && lk.Int64() >= 0 && lk.Int64() <= arr.Len() {
+				loOK = true
+			}
+			if hiOK && loOK {
+				c.Pass("R14.2", key, x.Pos(), "constant bounds inside a fresh array")
+				return
+			}
+		}
+	}
+	// make([]T, n, c) with constants is a fresh slice of capacity c cut to n
+	if mk, ok := x.X.(*ssa.MakeSlice); ok {
+		if capK, ok := mk.Cap.(*ssa.Const); ok && capK.Value != nil {
+			hiOK := x.High == nil
+			if hk, ok := x.High.(*ssa.Const); ok && hk.Value != nil && hk.Int64() >= 0 && hk.Int64() <= capK.Int64() {
+				hiOK = true
+			}
+			loOK := x.Low == nil || isConstInt(x.Low, 0)
+			if hiOK && loOK {
+				c.Pass("R14.2", key, x.Pos(), "a fresh make with constant capacity, cut within it")
+				return
+			}
+		}
+	}
 	// s[i:] or s[:i] with i bounded
 	okLow := x.Low == nil || isConstInt(x.Low, 0)
 	okHigh := x.High == nil
